@@ -23,7 +23,7 @@ import lib
 import views
 
 PID = "C09"
-PROPS = ["Aldy.Props.C09"]
+PROPS = ["Aldy.Props.C09", "Aldy.Props.C09Names"]
 TRUSTED_EXTRA = ["PyYAML", "natsort (order of minors inside a major; compared as sets)"]
 ASSUMPTIONS = ["database allele names and labels contain no ':' (checked per database; shipped ones satisfy it)"]
 
